@@ -8,12 +8,25 @@ from proto import T
 RULE = ('random operator-word-free tables and trees over their keys and over multi-word unknown keys (depth <= 4, arity 2-4, WITH '
         'pairs, same-operator nesting), taken as built and after simplify / dedup / combine_expressions; Spec on the real code: '
         'parse(str(e)) has the structure, operand order and symbols of e and renders to the same text; the readable rendering '
-        're-parses to e; render(template) equals the default rendering with every key replaced by the template applied to it. '
+        're-parses to e; render(template) equals the default rendering with every key replaced by the template applied to it, also for templates that give the empty text for some licenses. '
         'The renderings are asked in varying order on the same object (default first; readable first; renderings of a derived expression first). '
         'Correspondence: the three renderings with the model. non-trivial = not a single symbol; distinct by tree')
 ASSUMPTIONS = ['table names and unknown keys contain no operator words; templates are format strings over symbol.key']
 
 TEMPLATES = [('', ''), ('<', '>'), ('[', '|x]'), ('<a href="', '">k</a>')]
+
+
+class PartialTemplate(str):
+    """a template whose format() gives pre + key + post for exceptions only (or for the other licenses only) and '' otherwise"""
+
+    def __new__(cls, pre, post, for_exceptions):
+        o = str.__new__(cls, pre + '{symbol.key}' + post)
+        o.pre, o.post, o.for_exceptions = pre, post, for_exceptions
+        return o
+
+    def format(self, *args, **kw):
+        s = kw['symbol']
+        return (self.pre + s.key + self.post) if bool(s.is_exception) == self.for_exceptions else ''
 
 
 class Prop(BaseProp):
@@ -73,6 +86,14 @@ class Prop(BaseProp):
         want_t, want_d, want_r = drv.call_many([(T('rendert'), pre, post, t0), (T('render'), t0), (T('readable'), t0)])
         if tm != want_t:
             return Verdict('spec', case, 'template rendering', impl=tm, model=want_t, tags=tags)
+        # templates that give the empty text for some licenses (like '{symbol.wrapped.spdx_id}' over records where that field
+        # is blank): a format-string object that shows the key of exceptions only / of the other licenses only
+        for which in ('exc', 'lic'):
+            got = e.render(PartialTemplate(pre, post, which == 'exc'))
+            want = drv.call(T('rendertf'), pre, post, T(which), t0)
+            if got != want:
+                return Verdict('spec', case, 'template rendering (a template that is empty for some licenses: shown for %s only)' % which,
+                               impl=got, model=want, tags=tags)
         if text != want_d:
             return Verdict('diverge', case, 'render', impl=text, model=want_d, tags=tags)
         if rd != want_r:
